@@ -69,6 +69,7 @@ inductive JsExpr where
   | nonNullElse (a a' b : JsExpr)         -- `((a) != null ? a' : b)`
   | local (name : Bytes)                  -- `name`
   | optData (key : Bytes)                 -- `opt_data.key`
+  | ijData                                -- `opt_ijData`
   | member (x : JsExpr) (k : Bytes)       -- `x.k`
   | index (x : JsExpr) (i : Int)          -- `x[i]`
   | guard (g rest : JsExpr)               -- `(g == null) ? null : rest`
@@ -229,6 +230,10 @@ def eval (env : JEnv) : JsExpr → JOut
     | some kv => .val kv.2
     | none => .unspec                      -- not a declared `var` of the function
   | .optData key => .val (prop env.optData key)
+  | .ijData =>
+    match env.ijData with
+    | some kvs => .val (.obj kvs)
+    | none => .unspec                      -- a function called without injected data: outside the subset
   | .member x k => (eval env x).bind fun v => getMember v k
   | .index x i => (eval env x).bind fun v => getIndex v i
   | .guard g rest => (eval env g).bind fun v => if isNullish v then .val .null else eval env rest
